@@ -50,6 +50,14 @@ class Iter(Family):
         yield [[2, 2], [1, 1], 2]
         yield [[2, 2], [1], None]
         yield [[2, 2], [3, 1], None]
+        # ndim = 0: a 0-d array has exactly one element, hence exactly one (empty) chunk (fix C04h; the
+        # pinned tree yielded it and then raised IndexError); argument errors are still ValueError
+        for n in (1, 2, 7, 1000000):
+            yield [[], None, n]
+        yield [[], [], None]
+        yield [[], None, None]
+        yield [[], [], 3]
+        yield [[], [1], None]
         for sh in shapes(3, m):
             P = int(np.prod(sh))
             for n in range(1, P + 3):
@@ -365,7 +373,7 @@ class CatDerived(Family):
 PROP = Property(
     id="C20",
     title="Chunk, slice and broadcast helpers are exact",
-    theorems=["C20.findChunkShape_spec", "C20.iterateChunks_partition", "C20.iterateChunks_nmax", "C20.unbroadcast_roundtrip", "C20.unique_spec", "C20.viewShape_slice_length", "C20.combineNorm_correct", "C20.combineSlices_spec", "C20.iterLoop_eq_prod", "C20.iterateChunksLoop_partition", "C20.iterateChunksLoop_nmax", "C20.derived_codes_spec"],
+    theorems=["C20.findChunkShape_spec", "C20.iterateChunks_partition", "C20.iterateChunks_nmax", "C20.unbroadcast_roundtrip", "C20.unique_spec", "C20.viewShape_slice_length", "C20.combineNorm_correct", "C20.combineSlices_spec", "C20.iterLoop_eq_prod", "C20.iterateChunksLoop_partition", "C20.iterateChunksLoop_nmax", "C20.iterateChunks_entry_nmax", "C20.iterateChunks_entry_chunkShape", "C20.derived_codes_spec"],
     families=[SliceIndices(), Fcs(), Iter(), Comb(), Unbroadcast(), ViewShape(), Unique(), CatNd(), CatDerived()],
     trusted_base=["numpy striding / as_strided, pandas.factorize(sort=True), CPython slice.indices (the latter validated by the slidx L0 family)"],
     assumptions=["numpy and pandas behave as their L0 models on the explored scope"],
